@@ -45,6 +45,9 @@ THEOREMS = [
     # LIKE
     "like_dotfree_partial", "like_pointwise_partial", "like_pointwise_unsound", "like_newline_witness",
     "like_invalid_regex_panics",
+    # constant folding
+    "fold_eq_eval_unsound", "fold_rem_zero_panics", "fold_overflow_panics",
+    "fold_cast_out_of_range_unknown", "const_of_get0", "foldBin_sound", "foldUn_sound",
 ]
 
 # The witnesses of the `…_unsound` theorems, as requests (replayed on the implementation).
